@@ -121,3 +121,9 @@ let run_run (args : (string * string) list) : string =
     add "pg" (if mpg = pg then "ok" else "FAIL(model:" ^ short (str_nll mpg) ^ ")");
     Buffer.contents res
   end
+
+(* "llpbig": large inputs (around the minimum task length of the parallel loops) whose
+   verdict was computed by the harness itself with linear scans - an unproved probe that is
+   only passed through *)
+let run_big (args : (string * string) list) : string =
+  " big=" ^ (get args "verdict")
